@@ -489,7 +489,7 @@ def sheet_chunk(jobs: list) -> list:
     types = chart_types()
     prs = pptx.Presentation()
     lay = prs.slide_layouts[6]
-    res, live = [], []
+    res, live, deferred = [], [], []
     # every other chunk's deck already holds an embedded Excel workbook that is NOT a chart's (an OLE object, /ppt/embeddings/
     # Microsoft_Excel_Sheet1.xlsx): chart numbers and workbook numbers are then not aligned (chart1.xml <-> ...Sheet2.xlsx)
     import zlib
@@ -551,12 +551,19 @@ def sheet_chunk(jobs: list) -> list:
                 first = PRE[shape["kind"]] if site == "ReplaceData" else shape
                 gf = slide.shapes.add_chart(types[tname][0], Emu(0), Emu(0), Emu(3000000), Emu(2000000), build_data(first, parity))
                 if site == "ReplaceData":
-                    gf.chart.replace_data(build_data(shape, parity))
+                    # the charts of a chunk are all CREATED first (several of them from equal data, each from its own chart-data object)
+                    # and replaced afterwards, one after the other: a chart's workbook is its own, whatever other charts were made from
+                    deferred.append((rec, gf, build_data(shape, parity)))
             live.append(list(prs.slides).index(slide) if ole_first else len(prs.slides) - 1)
         except Exception as e:      # recorded, judged by the caller (an exception is not a workbook)
             rec["raised"] = "%s: %s" % (type(e).__name__, str(e)[:120])
             live.append(None)
         res.append(rec)
+    for rec_, gf_, cd_ in deferred:
+        try:
+            gf_.chart.replace_data(cd_)
+        except Exception as e:      # noqa: BLE001
+            rec_["raised"] = "%s: %s" % (type(e).__name__, str(e)[:120])
     buf = io.BytesIO()
     prs.save(buf)
     by_slide = {}
